@@ -4,7 +4,6 @@ import (
 	"bytes"
 	"context"
 	"encoding/xml"
-	"fmt"
 	"mime"
 	"net/http"
 	"net/url"
@@ -107,7 +106,7 @@ func decodeParamFilter(el *paramFilter) (*ParamFilter, error) {
 	pf := &ParamFilter{Name: el.Name}
 	if el.IsNotDefined != nil {
 		if el.TextMatch != nil {
-			return nil, fmt.Errorf("caldav: failed to parse param-filter: if is-not-defined is provided, text-match can't be provided")
+			return nil, internal.HTTPErrorf(http.StatusBadRequest, "caldav: failed to parse param-filter: if is-not-defined is provided, text-match can't be provided")
 		}
 		pf.IsNotDefined = true
 	}
@@ -124,7 +123,7 @@ func decodePropFilter(el *propFilter) (*PropFilter, error) {
 	pf := &PropFilter{Name: el.Name}
 	if el.IsNotDefined != nil {
 		if el.TextMatch != nil || el.TimeRange != nil || len(el.ParamFilter) > 0 {
-			return nil, fmt.Errorf("caldav: failed to parse prop-filter: if is-not-defined is provided, text-match, time-range, or param-filter can't be provided")
+			return nil, internal.HTTPErrorf(http.StatusBadRequest, "caldav: failed to parse prop-filter: if is-not-defined is provided, text-match, time-range, or param-filter can't be provided")
 		}
 		pf.IsNotDefined = true
 	}
@@ -156,7 +155,7 @@ func decodeCompFilter(el *compFilter) (*CompFilter, error) {
 	cf := &CompFilter{Name: el.Name}
 	if el.IsNotDefined != nil {
 		if el.TimeRange != nil || len(el.PropFilters) > 0 || len(el.CompFilters) > 0 {
-			return nil, fmt.Errorf("caldav: failed to parse comp-filter: if is-not-defined is provided, time-range, prop-filter, or comp-filter can't be provided")
+			return nil, internal.HTTPErrorf(http.StatusBadRequest, "caldav: failed to parse comp-filter: if is-not-defined is provided, time-range, prop-filter, or comp-filter can't be provided")
 		}
 		cf.IsNotDefined = true
 	}
@@ -240,7 +239,7 @@ func (h *Handler) handleQuery(r *http.Request, w http.ResponseWriter, query *cal
 	if query.Prop != nil {
 		var calendarData calendarDataReq
 		if err := query.Prop.Decode(&calendarData); err != nil && !internal.IsNotFound(err) {
-			return err
+			return &internal.HTTPError{Code: http.StatusBadRequest, Err: err}
 		}
 		decoded, err := decodeCalendarDataReq(&calendarData)
 		if err != nil {
@@ -287,7 +286,7 @@ func (h *Handler) handleMultiget(ctx context.Context, w http.ResponseWriter, mul
 	if multiget.Prop != nil {
 		var calendarData calendarDataReq
 		if err := multiget.Prop.Decode(&calendarData); err != nil && !internal.IsNotFound(err) {
-			return err
+			return &internal.HTTPError{Code: http.StatusBadRequest, Err: err}
 		}
 		decoded, err := decodeCalendarDataReq(&calendarData)
 		if err != nil {
